@@ -63,12 +63,27 @@ def run(tier, seed):
     for _ in range(n):
         cases.append(dict(qs=rng.choice(LENS), ed=rng.choice(LENS), name_tail=rng.choice(LENS), qn=rng.choice(LENS), tag=rng.choice([0x8017] * 3 + list(ST)),
                           name_alg=rng.choice(list(ALG))))
-    for c in cases:
+    shared_tail, shared_qs = rb(32), rb(34)
+    for ci, c in enumerate(cases):
         tag = c.get("tag", 0x8017)
         magic = rb(4) if rng.random() < 0.5 else b"\xffTCG"
         qs, ed, qn = rb(c.get("qs", 34)), rb(c.get("ed", 32)), rb(c.get("qn", 34))
         name_alg = c.get("name_alg", 0x000B)
         name = struct.pack(">H", name_alg) + rb(min(c.get("name_tail", 32), 65533))
+        # structures that SHARE a field value with earlier ones (the same attested Name certified again, the same signer) and fields that COINCIDE
+        # with one another inside one structure (signer = name, extraData = qualified name, ...): each is decoded on its own, field for field
+        if "name_tail" not in c and ci % 3 == 0:
+            name = struct.pack(">H", name_alg) + shared_tail
+        if "qs" not in c and ci % 4 == 1:
+            qs = shared_qs
+        if ci % 7 == 2 and "qs" not in c:
+            qs = name
+        if ci % 7 == 3 and "qn" not in c:
+            qn = name
+        if ci % 7 == 4 and "ed" not in c and "qn" not in c:
+            ed = qn
+        if ci % 7 == 5 and "qs" not in c and "qn" not in c:
+            qs = qn = name
         clock, reset, restart, safe, fwv = rb(8), rng.randrange(2 ** 32), rng.randrange(2 ** 32), rng.choice([0, 1, 2, 255]), rb(8)
         b = magic + struct.pack(">H", tag) + struct.pack(">H", len(qs)) + qs + struct.pack(">H", len(ed)) + ed + clock + struct.pack(">II", reset, restart) + bytes([safe]) + fwv \
             + struct.pack(">H", len(name)) + name + struct.pack(">H", len(qn)) + qn
